@@ -241,7 +241,8 @@ def expr_st():
         # QueryBuilder.__eq__/__ne__ compare aliases and return bool: a subquery is never the left operand of ==/!=
         # (also behind an alias: ["as", ["subq", ..], name] is still the QueryBuilder)
         txt = json.dumps(node)
-        return not any(('["%s", %s["subq"' % (op, pre)) in txt for op in ("eq", "ne") for pre in ("", '["as", '))
+        # ... and + - * on a QueryBuilder are set operations (UNION / MINUS / INTERSECT), whose == is a comparison of aliases again
+        return not any(('["%s", %s["subq"' % (op, pre)) in txt for op in ("eq", "ne", "add", "sub", "mul") for pre in ("", '["as", '))
 
     return st.recursive(leaf, extend, max_leaves=7).filter(ok)
 
